@@ -27,8 +27,8 @@ def _one(tree):
             for k, (path, tg) in enumerate(CT.assignments(tree)):
                 tags[(path, tg)] = 'v%d' % k
         nonexcl = None
-        for bits in itertools.product([0, 1], repeat=3):
-            val = dict(zip(CT.PREDS, bits))
+        for bits in itertools.product([0, 1], repeat=len(CT.ALL_PREDS)):
+            val = dict(zip(CT.ALL_PREDS, bits))
             val.update({v: 0 for v in tags.values()})
             acts = CT.interp(IntOps, tree, val, tags)
             for tg, lst in acts.items():
@@ -138,7 +138,7 @@ def run(ctx):
                'of the exclusion lemma')
     from fam import condtrees as CT
     import random
-    trees = []
+    trees = list(CT.handmade_trees())
     if ctx.tier == 'quick':
         trees += CT.enumerate_trees(3, 2, ('w', 'reg'))
         more = CT.enumerate_trees(2, 2, ('wd', 'regd', 'mem')) + CT.enumerate_trees(3, 3, ('mem',))
